@@ -27,6 +27,7 @@ RULE = ('Hypothesis: 1-5 non-recursive definitions (\\newcommand/\\renewcommand 
         'oracle (a) reference expander: exact non-blank output sequence (main flow then footnote flows), exact offsets for argument text, call-span membership for body text; '
         '(b) three ways of supplying the definitions agree up to a constant position shift. '
         'non-trivial = a use whose argument contains another call, or an omitted optional argument, or a parameter used twice; distinct by source text')
+RULE += ' Additions: in every second document each later macro name is a proper prefix of the earlier names; optional arguments also given without protecting braces and containing an opening bracket.'
 ASSUMPTIONS = [
     'definitions are non-recursive by construction (bodies call earlier definitions only; redefinitions keep that order)',
     'a macro is never applied to itself or to a single-token argument that is a macro taking arguments',
